@@ -1,7 +1,10 @@
 import Neutrino.Props.C09
 open Neutrino.Rescan
 #print axioms C09_walk_counterexample
+#print axioms C09_walk_counterexample_unread
 #print axioms C09_walk_partial
+#print axioms stepGood_ok
+#print axioms trackInv_next
 #print axioms C09_walk_current_arm
 #print axioms C09_reorg_above_keeps_cur
 #print axioms C09_no_miss
